@@ -612,4 +612,23 @@ def exampleCrcCfg : Cfg :=
   { app := (List.range 61).map (fun i => UInt8.ofNat (i * 7 + 1)), loadAddress := 0x20001000, subType := 1,
     tz := .custom (List.replicate 1100 0xA5) }
 
+def exampleSignedClass : Cls :=
+  ⟨1, [.Mbi_MixinApp, .Mbi_MixinRelocTable, .Mbi_MixinLoadAddress, .Mbi_MixinIvt, .Mbi_MixinTrustZone, .Mbi_MixinCertBlockV1,
+       .Mbi_MixinHmacMandatory, .Mbi_MixinKeyStore, .Mbi_MixinHwKey, .Mbi_ExportMixinAppTrustZoneCertBlock,
+       .Mbi_ExportMixinRsaSign, .Mbi_ExportMixinHmacKeyStoreFinalize], 1140⟩
+
+def exampleEncClass : Cls :=
+  ⟨3, [.Mbi_MixinApp, .Mbi_MixinRelocTable, .Mbi_MixinLoadAddress, .Mbi_MixinIvt, .Mbi_MixinTrustZone, .Mbi_MixinCertBlockV1,
+       .Mbi_MixinHwKey, .Mbi_MixinKeyStore, .Mbi_MixinHmacMandatory, .Mbi_MixinCtrInitVector,
+       .Mbi_ExportMixinAppTrustZoneCertBlockEncrypt, .Mbi_ExportMixinRsaSign, .Mbi_ExportMixinHmacKeyStoreFinalize], 1140⟩
+
+/-- a structurally valid (fake) v1 certificate block: header with one 4-byte "certificate" entry + RKH table = 164 bytes -/
+def exampleCert : Bytes :=
+  [0x63, 0x65, 0x72, 0x74, 1, 0, 0, 0] ++ le32 32 ++ zeros 16 ++ le32 4 ++ List.replicate 132 0x5A
+
+def exampleSignedCfg : Cfg :=
+  { app := (List.range 100).map (fun i => UInt8.ofNat (i * 3 + 2)), loadAddress := 0x1000, tz := .disabled, hwKey := true,
+    keyStore := some (List.replicate 1424 0x33), hmacKey := some ((List.range 32).map UInt8.ofNat),
+    reloc := some [⟨[1, 2, 3], 0x20001000⟩, ⟨[], 0x30000000⟩], cert := exampleCert, sigLen := 256 }
+
 end SpsdkVerif.Mbi
